@@ -50,6 +50,30 @@ def gen(args) -> list:
             ev["pyoda_read_std"] = [p.year, p.month, p.day]
 
         evs.append(guarded(ev, body))
+    # years the standard library cannot express (<= 0): the documented form is a sign and a four-digit magnitude; own text parses back
+    for _ in range(max(20, n // 40)):
+        y = rnd.choice([0, -1, -9, -10, -99, -100, -999, -1000, -9998, rnd.randint(-9998, 0)])
+        m, d = rnd.randint(1, 12), rnd.randint(1, 28)
+        nod = rnod()
+        which = rnd.choice(["date", "datetime", "instant"])
+        ev = {"op": which, "value": [y, m, d] if which == "date" else [y, m, d, nod // 10**9, nod % 10**9]}
+
+        def body(ev=ev, which=which, y=y, m=m, d=d, nod=nod):
+            ld = LocalDate(y, m, d)
+            if which == "date":
+                pat, v = LocalDatePattern.iso, ld
+                back = lambda x: [x.year, x.month, x.day]  # noqa: E731
+            elif which == "datetime":
+                pat, v = LocalDateTimePattern.extended_iso, ld.at(LocalTime.from_nanoseconds_since_midnight(nod))
+                back = lambda x: [x.year, x.month, x.day, x.nanosecond_of_day // 10**9, x.nanosecond_of_day % 10**9]  # noqa: E731
+            else:
+                pat, v = InstantPattern.extended_iso, ld.at(LocalTime.from_nanoseconds_since_midnight(nod)).in_utc().to_instant()
+                back = lambda x: (lambda u: [u.year, u.month, u.day, u.nanosecond_of_day // 10**9, u.nanosecond_of_day % 10**9])(x.in_utc().local_date_time)  # noqa: E731
+            text = pat.format(v)
+            ev["text"] = cps(text)
+            ev["pyoda_read_own"] = back(pat.parse(text).value)
+
+        evs.append(guarded(ev, body))
     for _ in range(n):
         c = rnd.random()
         if c < 0.3:
